@@ -591,35 +591,6 @@ fn exec(w: &World, rt: &tokio::runtime::Runtime, line: &str) -> String {
 // oracle: the property stated on the observable behaviour, from the descriptors only
 // ---------------------------------------------------------------------------------------------------------
 
-/// What the network layer hands to `get_vault_from_network` for this reply, observed on the real
-/// `Network::get_record_from_network` (same cfg as the vault read): one record, the entries of the split map when the
-/// split error reaches the caller, or nothing.
-fn handed_up(w: &World, rt: &tokio::runtime::Runtime, kn: u64, reply: &str) -> Vec<Vec<u8>> {
-    let rkey = vault_key(kn);
-    let Some(rep) = build_reply(w, reply, &rkey, kn) else { return vec![] };
-    let mut net = new_net();
-    let network = net.network.clone();
-    let cfg = ant_networking::GetRecordCfg {
-        get_quorum: libp2p::kad::Quorum::Majority,
-        retry_strategy: None,
-        target_record: None,
-        expected_holders: HashSet::new(),
-        is_register: false,
-    };
-    let mut rep = Some(rep);
-    let res = rt.block_on(drive(
-        network.get_record_from_network(rkey.clone(), &cfg),
-        &mut net.net_rx,
-        |_| 0,
-        |_| rep.take().unwrap_or(Err(GetRecordError::RecordNotFound)),
-    ));
-    match res {
-        Some(Ok(r)) => vec![r.value],
-        Some(Err(NetworkError::GetRecordError(GetRecordError::SplitRecord { result_map }))) => result_map.into_values().map(|(r, _)| r.value).collect(),
-        _ => vec![],
-    }
-}
-
 #[derive(serde::Deserialize)]
 #[allow(dead_code)]
 struct PadWire {
@@ -700,7 +671,7 @@ fn pads_of_reply(reply: &str) -> Vec<PadD> {
     v
 }
 
-fn oracle(w: &World, rt: &tokio::runtime::Runtime, line: &str, out_line: &str, out: &mut Out) {
+fn oracle(w: &World, line: &str, out_line: &str, out: &mut Out) {
     let ws: Vec<&str> = line.split_whitespace().collect();
     if out_line == "panic" || out_line == "stuck" {
         out.oracle_fail("no-panic", line, &format!("client call ended with {out_line}"));
@@ -735,16 +706,26 @@ fn oracle(w: &World, rt: &tokio::runtime::Runtime, line: &str, out_line: &str, o
         ["vault", key, reply] => {
             let key: u64 = key.parse().unwrap_or(99);
             let pads = pads_of_reply(reply);
-            // "unsigned or foreign versions are discarded": forged versions must not keep the authentic latest version
-            // from being returned. Stated over what the vault code is handed (see `handed_up`): when that contains a
-            // version owned by the requested key with a valid signature, the read returns the highest-counter such one.
-            // (Where the network layer's own split handling has already reduced the split to one foreign-owned pad,
-            // the vault code is handed no authentic version and nothing is demanded.)
-            if key < N_OWNERS {
-                let auth: Vec<(u64, String)> = handed_up(w, rt, key, reply).iter().filter_map(|v| authentic_version(v, key)).collect();
-                if let Some(best) = auth.iter().map(|a| a.0).max() {
+            // "unsigned or foreign versions are discarded", at full strength and from the reply alone: whenever the record or
+            // the split map the holders caused contains a version owned by the requested key whose signature verifies
+            // (checked on the very bytes sent, with plain msgpack + blsttc + sha3, none of scratchpad.rs) — next to whatever
+            // unsigned, wrongly signed, FOREIGN (validly signed by another owner) or undecodable records, in whatever
+            // order — the read returns an authentic version whose counter is the highest among the authentic versions
+            // that came as scratchpad records. An error, or an older version, fails.
+            if key < N_OWNERS && (reply.starts_with("ok=") || reply.starts_with("sp=")) {
+                let rkey = vault_key(key);
+                let mut auth: Vec<(u64, String, bool)> = vec![];
+                for d in recs_of_reply(reply) {
+                    if let (Some(rec), Some((h, _, _))) = (build_rec(w, &d, &rkey, key), split_rec(&d)) {
+                        if let Some((c, id)) = authentic_version(&rec.value, key) {
+                            auth.push((c, id, h == "s"));
+                        }
+                    }
+                }
+                if !auth.is_empty() {
+                    let best = auth.iter().filter(|a| a.2).map(|a| a.0).max().unwrap_or(0);
                     let ok = match out_line.strip_prefix("ok ") {
-                        Some(got) => auth.iter().any(|(c, id)| *c == best && id == got),
+                        Some(got) => auth.iter().any(|(c, id, _)| id == got && *c >= best),
                         None => false,
                     };
                     if !ok {
@@ -753,10 +734,10 @@ fn oracle(w: &World, rt: &tokio::runtime::Runtime, line: &str, out_line: &str, o
                         out.oracle_fail(
                             "vault-discards-forged",
                             line,
-                            &format!("the vault read was handed validly signed version(s) {ids:?} of key {key} (highest counter {best}) but gave `{out_line}`: forged or foreign versions must be discarded, not decide the outcome"),
+                            &format!("the holders' replies contain validly signed version(s) {ids:?} of key {key} (highest counter among scratchpad records {best}) but the read gave `{out_line}`: forged or foreign versions must be discarded, not decide the outcome"),
                         );
                     }
-                    out.count("vault:authentic-handed-up");
+                    out.count("vault:authentic-received");
                 }
             }
             if let Some(got) = out_line.strip_prefix("ok ") {
@@ -849,7 +830,7 @@ fn exec_vaultperm(w: &World, rt: &tokio::runtime::Runtime, line: &str, out: &mut
         if res == "bad-op" {
             return "bad-op".into();
         }
-        oracle(w, rt, &one, &res, out);
+        oracle(w, &one, &res, out);
         out.count("vaultperm:orders");
         if !outcomes.contains(&res) {
             outcomes.push(res);
@@ -857,8 +838,9 @@ fn exec_vaultperm(w: &World, rt: &tokio::runtime::Runtime, line: &str, out: &mut
     }
     outcomes.sort();
     // "the result does not depend on the order the replies arrive in": demanded where every reply is a scratchpad record
-    // claiming the requested key (authentic or forged) and the authentic versions have distinct counters — elsewhere the
-    // network layer's first-header-dictates-the-kind rule and counter ties make the outcome legitimately order dependent
+    // (of the requested key, authentic or forged, or a foreign owner's, signed or not) and the authentic versions have
+    // distinct counters — elsewhere the network layer's first-header-dictates-the-kind rule and counter ties make the
+    // outcome legitimately order dependent
     let key_n: u64 = key.parse().unwrap_or(99);
     let mut eligible = true;
     let mut auth_ctrs: Vec<u64> = vec![];
@@ -866,9 +848,9 @@ fn exec_vaultperm(w: &World, rt: &tokio::runtime::Runtime, line: &str, out: &mut
         match split_rec(r) {
             Some(("s", b, _)) if b.starts_with('P') => {
                 let f: Vec<&str> = b[1..].split('.').collect();
-                if f.len() != 4 || f[0].parse::<u64>().ok() != Some(key_n) {
+                if f.len() != 4 || f[0].parse::<u64>().is_err() {
                     eligible = false;
-                } else if f[2] == "v" {
+                } else if f[0].parse::<u64>().ok() == Some(key_n) && f[2] == "v" {
                     auth_ctrs.push(f[1].parse().unwrap_or(0));
                 }
             }
@@ -889,7 +871,8 @@ fn exec_vaultperm(w: &World, rt: &tokio::runtime::Runtime, line: &str, out: &mut
 }
 
 /// versions of the requested key's vault: authentic ones with distinct counters plus forged copies (unsigned, stranger's
-/// signature, counter inflated after signing) with counters above, between and below them, all under Scratchpad headers
+/// signature, counter inflated after signing) with counters above, between and below them, and (every other case) a pad
+/// of another owner — validly signed by that owner, usually with a higher counter —, all under Scratchpad headers
 fn gen_versions(rng: &mut Rng, key: u64) -> Vec<String> {
     let n_auth = rng.range(1, 4);
     let mut ctrs: Vec<u64> = vec![];
@@ -907,6 +890,12 @@ fn gen_versions(rng: &mut Rng, key: u64) -> Vec<String> {
             _ => rng.range(1, 12),
         };
         recs.push(format!("s:P{key}.{c}.{}.{}", rng.pick(&["i", "n", "w"]), rng.below(3)));
+    }
+    // another owner's validly signed (or forged) pad, mostly with a counter above the authentic ones
+    if recs.len() < 6 && rng.chance(1, 2) {
+        let other = (key + rng.range(1, N_OWNERS - 1)) % N_OWNERS;
+        let c = if rng.chance(2, 3) { rng.range(9, 20) } else { rng.range(1, 9) };
+        recs.push(format!("s:P{other}.{c}.{}.{}", rng.pick(&["v", "v", "v", "n"]), rng.below(3)));
     }
     rng.shuffle(&mut recs);
     recs
@@ -1110,6 +1099,16 @@ const CORPUS: &[&str] = &[
     "vaultperm 1 sp=s:P1.4.v.1,s:P1.5.i.2,s:P1.6.v.1,s:P1.3.n.2",
     "vaultperm 0 sp=s:P0.3.v.0,s:P0.4.v.1",
     "vaultperm 0 sp=c:J,s:P0.3.v.0,s:P1.9.v.1",
+    // a FOREIGN validly signed pad with a higher counter next to the authentic one, in split maps the network layer handles
+    // itself (all headers Scratchpad): it must not win inside handle_split_record_error and then be refused by the client
+    "vault 0 sp=s:P1.9.v.1,s:P0.3.v.0",
+    "vault 0 sp=s:P0.3.v.0,s:P1.9.v.1@own",
+    "vault 0 sp=s:P1.9.v.1,s:P2.9.v.1,s:P0.3.v.0",
+    "vault 0 sp=s:P0.3.v.0,s:P1.9.v.1,s:P0.5.v.2",
+    "vault 0 sp=s:P0.3.n.0,s:P1.9.v.1,o:P0.5.v.2",
+    "vault 1 sp=s:P1.4.v.1,s:P0.18446744073709551615.v.0",
+    "vaultperm 0 sp=s:P0.3.v.0,s:P1.9.v.1,s:P0.5.v.2",
+    "vaultperm 2 sp=s:P2.2.v.0,s:P0.9.v.1,s:P1.9.n.1,s:P2.7.i.2",
     // data with repeated content: several data-map entries name one address
     "data 3 o=0.0.0 m=ok=c:m3 e0=ok=c:e3.0 e1=ok=c:e3.0 e2=ok=c:e3.0",
     "data 3 o=2.1.0 m=ok=c:m3 e0=ok=c:e3.0 e1=nf e2=nf",
@@ -1166,7 +1165,7 @@ fn main() {
             out.count(&format!("{op}:reply:{}", r.trim_start_matches("m=").split('=').next().unwrap_or("?")));
         }
         out.nontrivial_case(line);
-        oracle(&w, &rt, line, &res, &mut out);
+        oracle(&w, line, &res, &mut out);
         out.line(line.clone(), res);
     }
     out.notes.push(format!(
